@@ -30,7 +30,7 @@ def rd_number(f):
     for i in range(8):
         if first & mask == 0:
             return value + ((first & (mask - 1)) << (8 * i))
-        value = value | (rd_byte(f) << (8 * i))
+        value = value + (rd_byte(f) << (8 * i))
         mask = mask >> 1
     return value
 
@@ -41,7 +41,7 @@ def rd_fixed(f, n):
         raise FormatError("eof")
     v = 0
     for i in range(n):
-        v = v | (b[i] << (8 * i))
+        v = v + (b[i] << (8 * i))
     return v
 
 
